@@ -15,6 +15,8 @@ pub struct Mutant {
 }
 
 const B16: [u32; 14] = [0, 1, 2, 3, 4, 5, 7, 8, 0x7f, 0x80, 0xff, 0x100, 0x7fff, 0x8000];
+/// every small value: codes, types and counts index tables of a few dozen entries
+const SMALL_MAX: u32 = 40;
 const B16B: [u32; 3] = [0xfffe, 0xffff, 0x3fff];
 const B32: [u32; 8] = [0x10000, 0xffffff, 0x1000000, 0x7fffffff, 0x80000000, 0xfffffffe, 0xffffffff, 0x00080004];
 
@@ -53,6 +55,9 @@ pub fn single_faults(b: &B, r: &mut Rng, light: bool) -> Vec<Mutant> {
                 let cur_le = b.v[f.off] as u32 | (b.v[f.off + 1] as u32) << 8;
                 let cur_be = b.v[f.off + 1] as u32 | (b.v[f.off] as u32) << 8;
                 let mut vals: Vec<u32> = B16.iter().chain(B16B.iter()).cloned().collect();
+                if !light {
+                    vals.extend(0..=SMALL_MAX);
+                }
                 for c in [cur_le, cur_be].iter() {
                     vals.push(c.wrapping_sub(1) & 0xffff);
                     vals.push((c + 1) & 0xffff);
@@ -75,6 +80,9 @@ pub fn single_faults(b: &B, r: &mut Rng, light: bool) -> Vec<Mutant> {
             4 => {
                 let cur = u32::from_le_bytes([b.v[f.off], b.v[f.off + 1], b.v[f.off + 2], b.v[f.off + 3]]);
                 let mut vals: Vec<u32> = B16.iter().chain(B16B.iter()).chain(B32.iter()).cloned().collect();
+                if !light {
+                    vals.extend(0..=SMALL_MAX);
+                }
                 vals.push(cur.wrapping_add(1));
                 vals.push(cur.wrapping_sub(1));
                 vals.sort();
